@@ -11,6 +11,7 @@ func TestReplay(t *testing.T) {
 		"HarnessCancelVsCall":     HarnessCancelVsCall,
 		"HarnessClientWriters":    HarnessClientWriters,
 		"HarnessCloseDuringWrite": HarnessCloseDuringWrite,
+		"HarnessPeerPings":        HarnessPeerPings,
 		"HarnessServerWriters":    HarnessServerWriters,
 	})
 }
